@@ -899,7 +899,31 @@ impl Format for ast::Expr {
             },
             ast::Expr::UnOp(op, x) => match op.value {
                 | token![unop -] | token![!] | token![~]
-                    => out.fmt_optional_parens(|out| out.fmt((op, x))),
+                    => {
+                    // Some operands cannot directly follow the operator:  a literal that prints with a minus sign
+                    // would give `--3` or `~-3` (only one prefix operator is allowed), and `!` followed by certain
+                    // letters/digits lexes as a legacy difficulty token (`!4`, `!E`).
+                    let operand_needs_parens = match &x.value {
+                        ast::Expr::LitInt { value, format } => (*value < 0 && format.signed) || op.value == token![!],
+                        ast::Expr::LitFloat { value } => value.is_sign_negative() && !value.is_nan(),
+                        ast::Expr::Var(_) => op.value == token![!],
+                        // (a negated number is printed like a negative literal, see below)
+                        ast::Expr::UnOp(inner_op, inner) => inner_op.value == token![unop -] && matches!(
+                            &inner.value, ast::Expr::LitInt { .. } | ast::Expr::LitFloat { .. },
+                        ),
+                        _ => false,
+                    };
+                    // A minus sign on a plain number reads (and is printed by the decompiler) as a negative
+                    // literal; don't wrap that in parentheses, so that `-3` stays `-3` when reformatted.
+                    let is_negated_number = op.value == token![unop -] && !operand_needs_parens && matches!(
+                        &x.value, ast::Expr::LitInt { .. } | ast::Expr::LitFloat { .. },
+                    );
+                    match (operand_needs_parens, is_negated_number) {
+                        (true, _) => out.fmt_optional_parens(|out| out.fmt((op, "(", SuppressParens(x), ")"))),
+                        (false, true) => out.fmt((op, x)),
+                        (false, false) => out.fmt_optional_parens(|out| out.fmt((op, x))),
+                    }
+                },
 
                 | token![unop $] | token![unop %]
                 | token![unop int] | token![unop float]
